@@ -950,6 +950,32 @@ pub fn fixed_cases(_tier: Tier) -> Vec<Case> {
             "sample t1 1 k1 0",
         ],
     ));
+    // more than 256 rows in every per-thread table and in the category / subcategory lists (index types narrowed
+    // to u8 would wrap here; the 65 536 boundary is out of reach of the list-based judge)
+    {
+        let mut ops: Vec<String> = vec![format!("process p1 1 0 {a}"), "thread t1 p1 1 0 1".into()];
+        ops.push(format!("lib l1 {}", hx("libfoo")));
+        ops.push(format!("cat c1 {} 3", hx("Bulk")));
+        let n = 300;
+        for i in 0..n {
+            ops.push(format!("string s{i} {}", hx(&format!("fn{i}"))));
+            match i % 3 {
+                0 => ops.push(format!("flabel f{i} t1 s{i} S:{}:3:{} 0", hx("Bulk"), hx(&format!("sub{i}")))),
+                1 => ops.push(format!("flabel f{i} t1 s{i} C:{}:{} 0", hx(&format!("cat{i}")), i % 14)),
+                _ => {
+                    ops.push(format!("nsym n{i} t1 l1 {} 4 {}", 16 * i, hx(&format!("sym{i}"))));
+                    ops.push(format!("fsym f{i} t1 rel ip l1 {} s{i} n{i} - - - 0 o 0", 16 * i + 1));
+                }
+            }
+        }
+        let all: Vec<String> = (0..n).map(|i| format!("f{i}")).collect();
+        ops.push(format!("stackframes k1 t1 {}", all.join(" ")));
+        ops.push("sample t1 1 k1 0".into());
+        ops.push(format!("marker m1 t1 st:0 s299 s298"));
+        ops.push("mstack t1 m1 k1".into());
+        let refs: Vec<&str> = ops.iter().map(|s| s.as_str()).collect();
+        v.push(case("bulk-300-rows", &refs));
+    }
     // rejected uses
     v.push(case(
         "rejected-uses",
